@@ -385,7 +385,9 @@ class Queue(Greenlet):
             for reply, group_env in self._split_by_reply(envelope, replies):
                 reply.message += ' (Too many retries)'
                 self._perm_fail(None, group_env, reply)
-            self._remove(id)
+            # Not self._remove(): this may already be running in the store
+            # pool, where spawning into the same (bounded) pool would block.
+            self._remove_stored(id)
             return False
         else:
             when = time.time() + wait
